@@ -115,11 +115,12 @@ def run_scenario(sc) -> Result:
 
 
 def _succeeded_with_detached_input(proj):
-    """The structure of known finding F2: an active SUCCEEDED step with a detached declared input."""
+    """The structure of known finding F2: an active SUCCEEDED step with a detached input
+    (declared, or amended in the run whose result is kept)."""
     for k, d in proj["nodes"].items():
         if d.get("kind") == "step" and d.get("state") == "SUCCEEDED":
             for ref, dyn in d["sources"]:
-                if ref.startswith("(file:") and not dyn:
+                if ref.startswith("(file:"):
                     return True
     return False
 
